@@ -32,6 +32,10 @@ type line struct {
 type scase struct {
 	Lines  []line `json:"lines"`
 	Splits []int  `json:"splits,omitempty"` // cyclic Write sizes; empty = one write per line
+	// Reuse: every chunk is copied to the start of one scratch buffer before it is written and the
+	// scratch is overwritten afterwards, as io.Copy, bufio.Writer and os/exec do (a Writer must not
+	// retain the slice it is given)
+	Reuse bool `json:"reuse,omitempty"`
 }
 
 // Filler words avoid [0-9a-fA-F.:] so that nothing but an address looks like one.
@@ -118,6 +122,7 @@ func genCase(t *rapid.T) scase {
 	}
 	if rapid.IntRange(0, 3).Draw(t, "split") != 0 {
 		c.Splits = rapid.SliceOfN(rapid.OneOf(rapid.IntRange(1, 3), rapid.IntRange(1, 40), rapid.IntRange(1, 400)), 1, 6).Draw(t, "splits")
+		c.Reuse = rapid.Bool().Draw(t, "reusebuffer")
 	}
 	return c
 }
@@ -244,13 +249,23 @@ func runScrub(_ *testing.T, c scase) error {
 		}
 	} else {
 		rest := []byte(whole)
+		scratch := make([]byte, 512)
 		for k := 0; len(rest) > 0; k++ {
 			n := c.Splits[k%len(c.Splits)]
 			if n > len(rest) {
 				n = len(rest)
 			}
-			if w, err := ls2.Write(rest[:n]); err != nil || w != n {
+			chunk := rest[:n]
+			if c.Reuse {
+				chunk = scratch[:copy(scratch, rest[:n])]
+			}
+			if w, err := ls2.Write(chunk); err != nil || w != n {
 				return fmt.Errorf("Write returned (%d,%v) for %d bytes", w, err, n)
+			}
+			if c.Reuse {
+				for i := range scratch {
+					scratch[i] = '#' // the caller reuses its buffer
+				}
 			}
 			rest = rest[n:]
 		}
